@@ -181,6 +181,15 @@ def run(rep, tier, seed):
                     for ch in chunking(bs, mode, vi or mainkm != "emacs"):
                         sess.append(keys(ch))
                         steps.append(list(ch))
+                # one table in four: the APPLICATION binds one more sequence (new for the keymap) through Config.Bind after the
+                # Shell has already dispatched keys, between two calls; the second call is typed against the larger table
+                late = None
+                rng2 = random.Random(seed * 977 + ci)       # (its own stream: the tables and inputs above do not depend on it)
+                if not local and ci % 4 == 3:
+                    taken = [e["seq"] for e in full]
+                    cand = [q for q in ([CX, Y], [Y], [A, Y], [CX, B, Y], [Z, A]) if q not in taken and not any(q[:len(t)] == t or t[:len(q)] == q for t in taken)]
+                    if cand:
+                        late = {"seq": rng2.choice(cand), "cmd": "plate", "macro": False, "body": []}
                 cid = "c03-%d" % ci
                 ci += 1
                 cs = {"id": cid, "inputrc": ("set editing-mode vi\n" if mainkm.startswith("vi") else ""), "prompt": "", "w": 80, "h": 24,
@@ -191,8 +200,24 @@ def run(rep, tier, seed):
                       "sessions": [sess]}
                 if local:
                     cs["local"] = km
+                if late:
+                    cs["probes"] = sorted(set(cs["probes"]) | {"plate"})
+                    sess2 = []
+                    if mainkm == "vi-command":
+                        sess2.append(keys(bytes([ESC])))
+                    al2 = sorted(set(al) | set(late["seq"]))
+                    ins2 = [late["seq"], late["seq"] + [Z]] + [[rng2.choice(al2) for _ in range(rng2.randint(1, 3))] for _ in range(12)]
+                    for w in ins2:
+                        if (vi or mainkm != "emacs") and w[-1] == ESC:
+                            continue
+                        for ch in chunking(bytes(w + [Z, Z]), mode, vi or mainkm != "emacs"):
+                            sess2.append(keys(ch))
+                    # (the first call is ended by the harness; Z Z leaves nothing pending)
+                    cs["sessions"].append(sess2)
+                    cs["preacts"] = [[], [{"k": "rebind", "s": "%s|plate" % mainkm, "h": bytes(late["seq"]).hex(), "n": 0}]]
                 cases.append(cs)
-                meta[cid] = {"table": full, "steps": steps, "km": km, "mode": mode, "main": mainkm, "skip": skip}
+                meta[cid] = {"table": full, "steps": steps, "km": km, "mode": mode, "main": mainkm, "skip": skip,
+                             "table2": (full + [late]) if late else None}
     log("C03: %d cases (tables x chunking modes)" % len(cases))
     bycase = run_harness("session", cases, os.path.join(wd, "run"))
     per = {}
@@ -204,6 +229,12 @@ def run(rep, tier, seed):
         cur = None
         skip = m["skip"]
         for e in evs:
+            if e["ev"] == "session" and e.get("s", 0) == 1 and m.get("table2"):
+                if cur is not None:
+                    lines.append((cur, {"s": 0}))
+                    cur = None
+                lines.append(({"ev": "case", "table": [{k: v for k, v in x.items() if k != "raw"} for x in m["table2"]]}, {"s": 1}))
+                skip = m["skip"]
             if e["ev"] == "read" and not e["fault"]:
                 if skip > 0:
                     skip -= 1
